@@ -26,8 +26,8 @@ LEVEL_TEXT = ('Deductive proof over the real remote/plc_modbus.py shatter and me
               'set-based oracle stands beside it (not counted).')
 LEVEL_NOTE = ('Trusted: sorted() returns an ordered permutation (T2 axiom, both directions by index maps); pyvc encoding; z3/cvc5. '
               'Domain: non-empty ranges (count >= 1) with non-negative addresses, each inside one 10000-register bank; '
-              'poller_modbus._poller (thread, device I/O) is not under contract: the real thread is driven for 2..5 poll cycles over a client whose _read '
-              'answers or raises per a schedule (bounded: every merged range attempted in every cycle, online follows the cycle outcome, only requested registers stored).')
+              'poller_modbus._poller (thread, device I/O) is not under contract: the real thread is driven for 2..5 poll cycles over an in-process Modbus slave (the real _read, pymodbus PDU encode/decode) that '
+              'answers or fails per a schedule (bounded: every merged range attempted in every cycle, online follows the cycle outcome, only requested registers stored, a poll supplies values only inside its own range).')
 TECHNIQUE = 'loop invariants + ghost coverage set on the real merge/shatter generators, VCs from the AST, z3/cvc5; bounded oracle enumeration as stand-in'
 
 TRUSTED = ['T2 sorted(xs) is an ordered permutation of xs', 'generator callee view derived mechanically from the ghost-style contract of shatter']
@@ -299,7 +299,7 @@ def enum_inputs(tier, rng):
 
 # ------------------------------------------------------------------------------------------------ the poll loop (anchor 3), bounded
 def poller_history(addresses, bad, reach, schedule, rate=0.004):
-    """Runs the real poller_modbus thread (real __init__, _poller, _store) over a client whose _read is replaced: cycle c of the
+    """Runs the real poller_modbus thread (real __init__, _poller, _store) over an in-process slave (the real _read; requests and responses through pymodbus' own PDU encode/decode; _read is wrapped only to log the ranges and to apply the schedule): cycle c of the
     schedule is 'up' (every range not containing a bad address answers value(a) = a % 1000 + 7) or 'down' (every range raises
     ModbusException).  Returns per-cycle attempted ranges, online flags after each cycle, and the final _data."""
     import threading, logging
@@ -319,9 +319,29 @@ def poller_history(addresses, bad, reach, schedule, rate=0.004):
             log.append((c, address, count))
             if c >= len(schedule) or schedule[c] == 'down' or any(a in bad for a in range(address, address + count)):
                 raise ModbusException('no response')
-            return [a % 1000 + 7 for a in range(address, address + count)]
+            # the real _read over an in-process slave: request and response go through pymodbus' own PDU classes (bits travel packed 8 to a byte)
+            got = pm.poller_modbus._read(self, address, count, **kw)
+            return got
 
-    client = pm.modbus_client_tcp(host='localhost', port=1)
+    from pymodbus.pdu import bit_message as bm, register_message as rm
+
+    class Slave(pm.modbus_client_tcp):
+        def connect(self):
+            return True
+
+        def execute(self, no_response_expected, request):
+            kinds = {bm.ReadCoilsRequest: (bm.ReadCoilsResponse, 1, True), bm.ReadDiscreteInputsRequest: (bm.ReadDiscreteInputsResponse, 10001, True),
+                     rm.ReadHoldingRegistersRequest: (rm.ReadHoldingRegistersResponse, 40001, False), rm.ReadInputRegistersRequest: (rm.ReadInputRegistersResponse, 30001, False)}
+            rcls, base, bits = kinds[type(request)]
+            if bits:
+                frame = rcls(bits=[True] * request.count).encode()
+            else:
+                frame = rcls(registers=[(base + request.address + k) % 1000 + 7 for k in range(request.count)]).encode()
+            resp = rcls()
+            resp.decode(frame)
+            return resp
+
+    client = Slave(host='localhost', port=1)
     p = P('sim', client=client, reach=reach)
     online = {}
     try:
@@ -358,9 +378,16 @@ def poller_oracle(addresses, bad, reach, schedule, h):
             badl.append('PLC still offline after a cycle in which %d ranges answer' % len(good))
         for a, n in good:
             for x in range(a, a + n):
-                if x in addresses and h['online'] and h['data'].get(x) != x % 1000 + 7:
-                    badl.append('register %d holds %r after an up cycle, the PLC answered %r' % (x, h['data'].get(x), x % 1000 + 7))
+                val = True if x % 100000 < 30000 else x % 1000 + 7        # coils and discrete inputs of the slave are all ON
+                if x in addresses and h['online'] and h['data'].get(x) != val:
+                    badl.append('register %d holds %r after an up cycle, the PLC answered %r' % (x, h['data'].get(x), val))
                     break
+    # a register whose own range never answered has no value: no other range's poll may supply one
+    answered = set(x for a, n in good for x in range(a, a + n)) if 'up' in schedule else set()
+    for x in sorted(addresses):
+        if x not in answered and h['data'].get(x) is not None:
+            badl.append('register %d holds %r although the range it is polled in never answered' % (x, h['data'].get(x)))
+            break
     if schedule[-1] == 'down' and h['online']:
         badl.append('PLC online after a cycle in which every poll failed')
     return badl[:3]
@@ -370,6 +397,10 @@ def poller_cases(tier):
     sets = [([1, 2, 40001, 40003], 1), ([1, 3, 10001, 40001], 0), ([40001, 40002, 40300], 100), ([5, 105, 10005, 30001, 40001], 10)]
     scheds = [['up', 'up'], ['up', 'down', 'up', 'up'], ['down', 'up'], ['up', 'down', 'down', 'up', 'down']]
     # a sparse request whose merged span exceeds the 123-register transfer limit: the second piece starts on a register nobody asked for
+    # bits travel packed 8 to a byte: requested coils / inputs just beyond the end of a polled range (further than reach, so in a range of their own)
+    for addrs, reach in (([1, 2, 3, 6], 1), ([10001, 10003, 10009, 10012], 2), ([5, 9, 40001], 0)):
+        for bad in ([addrs[-2]], [addrs[-1]], []):
+            yield addrs, set(bad), reach, ['up', 'up', 'up']
     sparse = [40001 + 2 * i for i in range(100)]
     yield sparse, set(), 100, ['up', 'up']
     yield sparse, {40001}, 100, ['up', 'down', 'up']
